@@ -124,7 +124,10 @@ def rand_dirs(rnd, depth=None):
 # ---------------------------------------------------------------------------
 # A. what trash-put writes, and how the readers read it back (C03)
 
-def put_and_readback(seed, n=14, utf8_only=False, alphabet_paths=None):
+def put_and_readback(seed, n=14, utf8_only=False, alphabet_paths=None, td=None):
+    """td: None (home trash / $topdir/.Trash-$uid), 'c' (--trash-dir on the volume m1, every command gets it),
+    'clink' (the same directory, always named through a symlink that lives on the root volume: relative Path= values are
+    then relative to the volume of the path as spelled, for the writer and for the readers alike)"""
     rnd = random.Random('putrb|%s' % seed)
     box = Box(seed)
     obs = []
@@ -137,8 +140,19 @@ def put_and_readback(seed, n=14, utf8_only=False, alphabet_paths=None):
         entries = []
         rootb = os.fsencode(box.root)
         used = set()
+        td_args = []
+        relbase = None
+        if td:
+            real_td = box.tdir('c')
+            if td == 'clink':
+                os.symlink(os.path.join(box.root, 'm1'), os.path.join(box.root, 'to-m1'))
+                td_args = ['--trash-dir', os.path.join(box.root, 'to-m1', os.path.basename(real_td))]
+                relbase = rootb
+            else:
+                td_args = ['--trash-dir', real_td]
+                relbase = rootb + b'/m1'
         for i in range(n):
-            vol = rnd.choice(['R', 'V1'])
+            vol = rnd.choice(['R', 'V1']) if not td else 'V1'
             top = rootb if vol == 'R' else rootb + b'/m1'
             if alphabet_paths is not None:
                 rel = alphabet_paths[i % len(alphabet_paths)]
@@ -174,13 +188,15 @@ def put_and_readback(seed, n=14, utf8_only=False, alphabet_paths=None):
         while k < len(entries):
             batch = entries[k:k + rnd.choice([1, 2, 5])]
             k += len(batch)
-            res = box.run('trash-put', ['--'] + [e['path'] for e in batch], now=now)
+            res = box.run('trash-put', td_args + ['--'] + [e['path'] for e in batch], now=now)
             for e in batch:
                 e['put_exit'] = res['exit']
                 e['put_err'] = res['stderr'][-300:].decode('utf-8', 'replace')
         # find the info files
         for e in entries:
-            tdir = os.fsencode(box.tdir('home' if e['vol'] == 'R' else 't2'))
+            tdir = os.fsencode(box.tdir('c' if td else 'home' if e['vol'] == 'R' else 't2'))
+            if relbase is not None:
+                e['top'] = relbase
             base = os.path.basename(e['path'])
             content = None
             slot = None
@@ -208,9 +224,9 @@ def put_and_readback(seed, n=14, utf8_only=False, alphabet_paths=None):
                         'note': 'put exit %s %s' % (e.get('put_exit'), e.get('put_err', '')[-120:]) if content is None else ''})
         # read back: trash-list and trash-restore must show each location; unparsed bytes are reported
         known = {e['path']: e for e in entries if e['content'] is not None}
-        lres = box.run('trash-list', [])
+        lres = box.run('trash-list', td_args)
         seen_list = parse_known(lres['stdout'], known)
-        rres = box.run('trash-restore', ['/'], stdin=b'')
+        rres = box.run('trash-restore', td_args + ['/'], stdin=b'')
         seen_restore = parse_known(rres['stdout'], known)
         for e in entries:
             if e['content'] is None:
@@ -227,7 +243,7 @@ def put_and_readback(seed, n=14, utf8_only=False, alphabet_paths=None):
         # trash-rm with the exact (glob-escaped) full path removes exactly that entry; restore brings one back
         pick = [e for e in entries if e['content'] is not None]
         rnd.shuffle(pick)
-        for e in pick[:3]:
+        for e in (pick[:3] if not td else []):         # trash-rm has no --trash-dir
             before = set(os.listdir(e['tdir'] + b'/info'))
             pat = glob_escape(e['path'])
             box.run('trash-rm', [pat])
@@ -359,6 +375,9 @@ def foreign_readers(seed, n=10, home_own_volume=False):
             inside_v1 = rnd.random() < 0.7 or kind != 'home'
             top = rootb + b'/m1' if (kind != 'home') else (rootb if rnd.random() < 0.5 else rootb + b'/m1')
             dirs = [b'o%d' % i] + rand_dirs(rnd, depth=rnd.choice([0, 1, 2]))
+            if rnd.random() < 0.03:
+                # a legal path (about 1500 bytes) whose percent-encoding is longer than PATH_MAX
+                dirs += [('%d-' % k + '\u044b\u0416 ' * 40).encode() for k in range(7)]
             name = rand_name(rnd, maxlen=60, utf8_only=True)
             absp = top + b'/' + b'/'.join(dirs + [name])
             relp = b'/'.join(dirs + [name]) if kind != 'home' or rnd.random() < 0.3 else None
@@ -798,10 +817,97 @@ def restore_scope(seed):
 
 
 # ---------------------------------------------------------------------------
+# F. where trash-restore puts an entry written by another implementation (C20: "the path trash-list prints is the path
+#    trash-restore restores it to")
+
+def foreign_restore(seed, n=6, occupied=False):
+    rnd = random.Random('frestore|%s' % seed)
+    obs = []
+    for i in range(n):
+        box = Box('%s-%d' % (seed, i))
+        try:
+            rootb = os.fsencode(box.root)
+            kind = rnd.choice(['home', 't1', 't2', 'c'])
+            tdir = os.fsencode(box.make_tdir(kind))
+            top = rootb + b'/m1' if kind != 'home' else (rootb if rnd.random() < 0.5 else rootb + b'/m1')
+            dirs = [b'o%d' % i] + rand_dirs(rnd, depth=rnd.choice([0, 1, 2]))
+            name = rand_name(rnd, maxlen=40, utf8_only=True)
+            tail = rnd.choice([b'', b'', b'/', b'//'])               # other writers record directories with a trailing slash
+            absp = top + b'/' + b'/'.join(dirs + [name]) + tail
+            relp = (b'/'.join(dirs + [name]) + tail) if kind != 'home' else None
+            content, strict = foreign_contents(rnd, absp, relp)
+            if not strict:
+                continue
+            slot = rand_name(rnd, maxlen=20, utf8_only=True)
+            if slot.endswith(b'.trashinfo') or slot.startswith(b'.'):
+                slot = b's' + slot
+            marker = b'marker-%d-%d' % (seed, i)
+            as_dir = rnd.random() < 0.5
+            pay = tdir + b'/files/' + slot
+            if as_dir:
+                os.mkdir(pay)
+                with open(pay + b'/inside', 'wb') as f:
+                    f.write(marker)
+            else:
+                with open(pay, 'wb') as f:
+                    f.write(marker)
+            with open(tdir + b'/info/' + slot + b'.trashinfo', 'wb') as f:
+                f.write(content)
+            occ = None
+            if occupied:
+                # something already lives at the original location (C06): nothing may be restored, nothing may change there
+                dest = absp.rstrip(b'/')
+                os.makedirs(os.path.dirname(dest), exist_ok=True)
+                occ = rnd.choice(['file', 'dlink', 'flink', 'dir', 'emptydir'])
+                if occ == 'file':
+                    with open(dest, 'wb') as f:
+                        f.write(b'occupant')
+                elif occ == 'dlink':
+                    os.symlink(b'/nonexistent/occupant', dest)
+                elif occ == 'flink':
+                    with open(dest + b'.target', 'wb') as f:
+                        f.write(b'occupant target')
+                    os.symlink(dest + b'.target', dest)
+                else:
+                    os.mkdir(dest)
+                    if occ == 'dir':
+                        with open(dest + b'/occupant', 'wb') as f:
+                            f.write(b'occupant')
+                before = world.digest_of_sub(world.snapshot_sub(os.path.dirname(dest)))
+            args = (['--trash-dir', os.fsdecode(tdir)] if kind == 'c' else []) + ['/']
+            res = box.run('trash-restore', args, stdin=b'0\n')
+            landed = None
+            for dp, dn, fn in os.walk(rootb):
+                for x in fn:
+                    fp = dp + b'/' + x
+                    try:
+                        if os.path.getsize(fp) == len(marker) and open(fp, 'rb').read() == marker:
+                            landed = os.path.dirname(fp) if as_dir else fp
+                    except OSError:
+                        pass
+            if landed is not None and landed.startswith(tdir + b'/'):
+                landed = None          # still in the trash
+            base = B(os.fsencode(box.tbase(kind))) if kind != 'home' else B(b'/')
+            if kind == 'home' and is_relative(content):
+                continue               # known finding: relative Path in the home trash
+            o = {'f': 'restored', 'content': B(content), 'base': base, 'landed': B(landed) if landed is not None else NONE,
+                 'kind': kind, 'occupied': bool(occupied), 'intact': True, 'failed': res['exit'] != 0,
+                 'note': 'exit %s %s' % (res['exit'], res['stderr'][-120:].decode('utf-8', 'replace'))}
+            if occupied:
+                o['occupant'] = occ
+                o['intact'] = (world.digest_of_sub(world.snapshot_sub(os.path.dirname(dest))) == before and
+                               os.path.lexists(pay) and os.path.lexists(tdir + b'/info/' + slot + b'.trashinfo'))
+            obs.append(o)
+        finally:
+            box.destroy()
+    return obs
+
+
+# ---------------------------------------------------------------------------
 # driver
 
 KINDS = {'putrb': put_and_readback, 'foreign': foreign_readers, 'expiry': expiry, 'rm': rm_patterns,
-         'reply': restore_replies, 'scope': restore_scope}
+         'reply': restore_replies, 'scope': restore_scope, 'frestore': foreign_restore}
 
 
 def _job(args):
